@@ -155,9 +155,24 @@ fn ols(a: &Args, rep: &mut Rep) -> Result<(), String> {
 fn isotonic(a: &Args, rep: &mut Rep) -> Result<(), String> {
     use linfa_linear::IsotonicRegression;
     let (x, y) = regression(60, 1, 1, 131 + a.instance as u64);
-    let ds = Dataset::new(x.clone(), y.column(0).to_owned());
+    // the generator's slope for one feature is negative: mirror the regressor so that the isotonic fit is not constant
+    let _ = y;
+    // sorted regressor (the fit takes its block boundaries from the records in the given order)
+    let mut xs: Vec<f64> = x.iter().cloned().collect();
+    xs.sort_by(|a, b| a.partial_cmp(b).unwrap());
+    let x = Array2::from_shape_vec((xs.len(), 1), xs).unwrap();
+    // a clearly increasing, noisy response so that the fitted step function has many distinct levels
+    let mut g = Lcg(977 + a.instance as u64);
+    let yv: Array1<f64> = x.column(0).mapv(|v| 0.8 * v + 0.3 * g.normalish());
+    let ds = Dataset::new(x.clone(), yv);
     let m = IsotonicRegression::new().fit(&ds).map_err(e)?;
-    let pool = pool_from(&x, vec![if a.instance % 2 == 0 { 1e6 } else { -1e6 }]);
+    // pool: training rows from the lower, middle and upper part, an interpolated off-data point, an extreme
+    let mut pool = pool_from(&x, vec![if a.instance % 2 == 0 { 1e6 } else { -1e6 }]);
+    pool[0] = x.row(7).to_vec();
+    pool[1] = x.row(45).to_vec();
+    pool[2] = x.row(7).to_vec();
+    pool[3] = vec![0.5 * (x[(20, 0)] + x[(21, 0)]) + 0.013];
+    pool[5] = x.row(30).to_vec();
     let store = build_store(&pool, a.max_len, &a.only);
     let sp = spec("isotonic", a, &pool);
     sweep::<Array1<f64>, _, _>(&sp, &m, Some(&m), &store, None, rep);
@@ -323,15 +338,19 @@ fn svm_c_bool_gaussian(a: &Args, rep: &mut Rep) -> Result<(), String> {
     Ok(())
 }
 
-fn svm_nu_bool_linear(a: &Args, rep: &mut Rep) -> Result<(), String> {
+fn svm_bool_linear_poly(a: &Args, rep: &mut Rep) -> Result<(), String> {
     use linfa_svm::Svm;
     let p = [2, 9, 3][a.instance % 3];
     let (x, y) = blobs(80, p, 2, 231 + a.instance as u64);
     let ds = Dataset::new(x.clone(), y.mapv(|c| c == 1));
-    let m = Svm::<f64, bool>::params().linear_kernel().nu_weight(0.3).fit(&ds).map_err(e)?;
+    let m = if a.instance % 3 == 2 {
+        Svm::<f64, bool>::params().polynomial_kernel(1.0, 2.0).pos_neg_weights(1.0, 1.0).fit(&ds).map_err(e)?
+    } else {
+        Svm::<f64, bool>::params().linear_kernel().pos_neg_weights(1.0, 1.0).fit(&ds).map_err(e)?
+    };
     let pool = pool_from(&x, extreme(p));
     let store = build_store(&pool, a.max_len, &a.only);
-    let mut sp = spec("svm_nu_bool_linear", a, &pool);
+    let mut sp = spec("svm_bool_linear_poly", a, &pool);
     sp.margin = Some(svm_margin(&m));
     sweep::<Array1<bool>, _, _>(&sp, &m, Some(&m), &store, None, rep);
     Ok(())
@@ -358,9 +377,9 @@ fn svm_probability(a: &Args, rep: &mut Rep) -> Result<(), String> {
 fn svm_regression_linear(a: &Args, rep: &mut Rep) -> Result<(), String> {
     use linfa_svm::Svm;
     let p = [2, 9, 3][a.instance % 3];
-    let (x, y) = regression(60, p, 1, 251 + a.instance as u64);
+    let (x, y) = regression(if p > 4 { 30 } else { 60 }, p, 1, 251 + a.instance as u64);
     let ds = Dataset::new(x.clone(), y.column(0).to_owned());
-    let m = Svm::<f64, f64>::params().c_svr(1.0, Some(0.1)).linear_kernel().fit(&ds).map_err(e)?;
+    let m = Svm::<f64, f64>::params().c_svr(if p > 4 { 0.1 } else { 1.0 }, Some(if p > 4 { 0.5 } else { 0.1 })).linear_kernel().fit(&ds).map_err(e)?;
     let pool = pool_from(&x, extreme(p));
     let store = build_store(&pool, a.max_len, &a.only);
     let mut sp = spec("svm_regression_linear", a, &pool);
@@ -596,6 +615,12 @@ fn multi_class_model(a: &Args, rep: &mut Rep) -> Result<(), String> {
     if a.instance % 3 == 2 {
         members.reverse();
     }
+    if a.instance % 3 == 0 {
+        // a second label backed by an identical member: every row where that member wins is an exact tie
+        // (either label is admissible; the wrapper must still answer per row)
+        let twin = members[0].1.clone();
+        members.push((40, twin));
+    }
     let pool = pool_from(&x, extreme(2));
     let store = build_store(&pool, a.max_len, &a.only);
     let mo: MultiClassModel<Array2<f64>, usize> = members.clone().into_iter().collect();
@@ -759,7 +784,7 @@ pub fn registry() -> Vec<Entry> {
         kmeans, gmm, ols, isotonic, tweedie, elasticnet, multitask_elasticnet,
         pls_regression, pls_canonical, pls_cca,
         logistic_binary, logistic_multinomial,
-        svm_c_bool_gaussian, svm_nu_bool_linear, svm_probability, svm_regression_linear, svm_regression_gaussian, svm_one_class,
+        svm_c_bool_gaussian, svm_bool_linear_poly, svm_probability, svm_regression_linear, svm_regression_gaussian, svm_one_class,
         decision_tree, gaussian_nb, multinomial_nb, ftrl, pca, fast_ica,
         multi_target_model, multi_class_model, platt_linear_scorer, platt_svm,
     ]
